@@ -368,3 +368,98 @@ func compareDecoded(got *panos.VerifConfig, want *iConfig, ordered bool) string 
 	}
 	return ""
 }
+
+// mergeTexts: what Netspoc's three files for one device mean together, computed on the independent
+// reading (never with the tool's MergeSpoc): per vsys NAME the rules of the raw part without
+// <APPEND/>, then those of the IPv6 part without it, the rules of the main file, the IPv6 part's
+// <APPEND/> rules, the raw part's <APPEND/> rules; the objects of the parts are added.  The vsys keep
+// the order of the main file; a vsys only a part has follows (IPv6 before raw).  Every vsys is
+// merged with the part of its own name only.
+func mergeTexts(spoc, v6, raw string) (*iConfig, error) {
+	m, err := readConfig(spoc)
+	if err != nil {
+		return nil, err
+	}
+	for _, txt := range []string{v6, raw} {
+		if strings.TrimSpace(txt) == "" {
+			continue
+		}
+		p, err := readConfig(txt)
+		if err != nil {
+			return nil, err
+		}
+		if !p.HasDevices {
+			continue
+		}
+		m.HasDevices = true
+		for _, pv := range p.Vsys {
+			at := -1
+			for i := range m.Vsys {
+				if m.Vsys[i].Name == pv.Name {
+					at = i
+				}
+			}
+			if at < 0 {
+				m.Vsys = append(m.Vsys, iVsys{Name: pv.Name})
+				at = len(m.Vsys) - 1
+			}
+			v := &m.Vsys[at]
+			var front, back []iRule
+			for _, r := range pv.Rules {
+				if r.Append {
+					r.Append = false
+					back = append(back, r)
+				} else {
+					front = append(front, r)
+				}
+			}
+			v.Rules = append(append(front, v.Rules...), back...)
+			v.Addrs = append(v.Addrs, pv.Addrs...)
+			v.Groups = append(v.Groups, pv.Groups...)
+			v.Svcs = append(v.Svcs, pv.Svcs...)
+			v.SGrps = append(v.SGrps, pv.SGrps...)
+		}
+	}
+	return m, nil
+}
+
+// sameIConfig: two independent readings agree (vsys by index, rules in order, objects by name).
+func sameIConfig(a, b *iConfig) string {
+	if len(a.Vsys) != len(b.Vsys) {
+		return fmt.Sprintf("%d vsys against %d", len(a.Vsys), len(b.Vsys))
+	}
+	for i := range a.Vsys {
+		x, y := a.Vsys[i], b.Vsys[i]
+		if x.Name != y.Name {
+			return fmt.Sprintf("vsys %d: %s against %s", i, x.Name, y.Name)
+		}
+		if len(x.Rules) != len(y.Rules) {
+			return fmt.Sprintf("vsys %s: %d rules against %d", x.Name, len(x.Rules), len(y.Rules))
+		}
+		for j := range x.Rules {
+			if fmt.Sprint(x.Rules[j]) != fmt.Sprint(y.Rules[j]) {
+				return fmt.Sprintf("vsys %s: rule %d: %s against %s", x.Name, j, x.Rules[j].Name, y.Rules[j].Name)
+			}
+		}
+		objs := func(l []iObj) string {
+			var s []string
+			for _, o := range l {
+				s = append(s, o.Name+"="+o.Val)
+			}
+			sort.Strings(s)
+			return strings.Join(s, ";")
+		}
+		grps := func(l []iGrp) string {
+			var s []string
+			for _, o := range l {
+				s = append(s, o.Name+"="+strings.Join(o.Members, ","))
+			}
+			sort.Strings(s)
+			return strings.Join(s, ";")
+		}
+		if objs(x.Addrs) != objs(y.Addrs) || objs(x.Svcs) != objs(y.Svcs) || grps(x.Groups) != grps(y.Groups) || grps(x.SGrps) != grps(y.SGrps) {
+			return fmt.Sprintf("vsys %s: objects differ", x.Name)
+		}
+	}
+	return ""
+}
